@@ -1,6 +1,7 @@
 """MIR symbolic interpreter: one Path object executes one path; Explorer
 re-executes with recorded decision prefixes until every feasible path is done.
 """
+import os
 import re
 import sys
 import time
@@ -417,6 +418,39 @@ class Machine:
 
 # ---------------------------------------------------------------------------
 
+# ---------------------------------------------------------------------------
+# second opinion: a sample of the deciding queries is re-asked to cvc5 (SMT-LIB2 text of the z3 solver
+# state + the assumptions); a different verdict makes the run inconclusive
+CROSS = {'left': int(os.environ.get('VERIF_CVC5_SAMPLE', '0') or 0), 'every': int(os.environ.get('VERIF_CVC5_EVERY', '97') or 97),
+         'asked': 0, 'agreed': 0, 'skipped': 0, 'secs': 0.0}
+
+
+def cross_check(solver, assumptions, z3_sat):
+    import subprocess
+    t = time.time()
+    try:
+        s2 = z3.Solver()
+        s2.add(solver.assertions())
+        for a in assumptions:
+            s2.add(a)
+        text = '(set-logic QF_BV)\n' + s2.to_smt2()
+        p = subprocess.run(['cvc5', '--lang', 'smt2', '--tlimit=20000'], input=text.encode(), stdout=subprocess.PIPE, stderr=subprocess.PIPE, timeout=40)
+        out = p.stdout.decode('utf-8', 'replace').strip().split('\n')
+        verdict = out[0].strip() if out else ''
+    except Exception:
+        verdict = ''
+    CROSS['secs'] += time.time() - t
+    CROSS['left'] -= 1
+    if verdict not in ('sat', 'unsat'):
+        CROSS['skipped'] += 1
+        return
+    CROSS['asked'] += 1
+    if (verdict == 'sat') == z3_sat:
+        CROSS['agreed'] += 1
+    else:
+        raise Inconclusive('z3 says %s, cvc5 says %s on the same query' % ('sat' if z3_sat else 'unsat', verdict))
+
+
 class Frame:
     __slots__ = ('f', 'cells')
 
@@ -483,6 +517,10 @@ class Path:
         self.queries += 1
         if r == z3.unknown:
             raise Inconclusive('solver returned unknown: %s' % self.solver.reason_unknown())
+        if CROSS['left'] > 0:
+            CROSS['n'] = CROSS.get('n', 0) + 1
+            if CROSS['n'] % CROSS['every'] == 0:
+                cross_check(self.solver, assumptions, r == z3.sat)
         return r == z3.sat
 
     def feasible(self, cond):
